@@ -95,6 +95,9 @@ func (x *c04TokCtx) accepts(stmts []ast.Stmt) string {
 			if !seenCall { // the packing error check before the call: not a statement about the token's answer
 				continue
 			}
+			if s.Init != nil && strings.Contains(x.c.src(s.Init), "UnpackTransferFrom(") {
+				x.errSrc = "unpack"
+			}
 			if len(s.Body.List) == 0 {
 				continue
 			}
